@@ -88,7 +88,16 @@ def build_prior(poly, noff, status, alt_units=False, variant=None):
             if st == "nounit":
                 pass
             elif st == "badunit":
-                var = xu.with_unit(var, u.kg if name != "e" else u.m)
+                # far misses and near misses: a unit of another dimension, the canonical unit times / over an angle, a velocity
+                # for a slope (1/d forgotten), an angle for the eccentricity, no angle for an angle
+                can = unit_of(name)
+                bads = [u.kg if name != "e" else u.m, can * u.rad, can / u.deg if name not in ("omega", "M0") else u.one,
+                        can * u.day if name not in ("P",) else u.km / u.s, u.deg if name == "e" else can * u.rad ** 2]
+                k = (sum(map(ord, name)) + poly + 3 * noff + (variant or 0)) % len(bads)
+                bad = bads[k]
+                if bad.is_equivalent(can):            # never hand over a unit that IS acceptable
+                    bad = u.kg
+                var = xu.with_unit(var, bad)
             else:
                 var = xu.with_unit(var, unit_of(name))
             if name.startswith("dv0"):
